@@ -3,9 +3,9 @@
 \*   E4 5700/5700 (exhaustive)  E5 3000/91125 (seeded stride)
 \*   R1 8000, R2 3000 pseudo-random (FV_SEED);  M 20 (3 hand-made + 17 random)
 \* Sample points as in FeatVarsQuick.cfg.  env: FV_SEED (0..9999).  Run with -continue -deadlock.
-\* RankFixed = FALSE: Rank arithmetic as in the code today (finding KF2). Set TRUE (here, in the other
-\* FeatVars*.cfg) once the KF2 fix of docs/C16.md is in /repo.
-CONSTANT RankFixed = FALSE
+\* RankFixed = FALSE: Rank arithmetic as in the code before repo fix 'feature-variation rank ordering' (finding KF2);
+\* TRUE: as in the code now (sort by count_ones, words aligned at the end).
+CONSTANT RankFixed = TRUE
 CONSTANT Families <- ThoroughFamilies
 INIT Init
 NEXT Next
